@@ -1,6 +1,6 @@
 """Sidecar contracts for /repo/bisturi (never edits the repository)."""
 
-ALL_MODULES = ['c_fragments', 'c_structural', 'c_field']
+ALL_MODULES = ['c_fragments', 'c_structural', 'c_field', 'c_packet']
 
 _COMMON_TRUST = [
     'builtin/library contracts of DESIGN.md 2.5-2.6 (assumed; cross-checked against CPython by pyvc/crosscheck.py, bounded)',
@@ -14,6 +14,21 @@ _DATA_FUNCS = ['field:Data._unpack_fixed_size', 'field:Data._unpack_variable_siz
                'field:Data._unpack_with_regexp_marker', 'field:Data.pack']
 
 PROPERTIES = {
+    'C12': dict(
+        level='proof',
+        functions=['packet:PacketError.__init__', 'packet:PacketError.add_parent_field_and_packet', 'packet:PacketError.__str__',
+                   'packet:Packet.unpack_impl', 'packet:Packet.pack_impl', 'packet:Packet.unpack', 'packet:Packet.pack'],
+        trusted_base=_COMMON_TRUST + ['abstract field contract role:FIELD.unpack / role:FIELD.pack (any field may raise any exception; a nested PacketError carries a well-formed stack)'],
+        assumptions=['WFClass: get_fields() is the compiled field table (metaclass pipeline not under contract)',
+                     'offset >= 0', 'generated pack_impl/unpack_impl replacements are covered by C03, not here'],
+    ),
+    'C20': dict(
+        level='proof',
+        functions=['packet:Packet.__eq__', 'packet:Packet.__repr__'],
+        trusted_base=_COMMON_TRUST,
+        assumptions=["value comparison `!=` of two field values is total (does not raise) and is the negation of `==`",
+                     "__ne__ is python's default negation of __eq__ (Packet defines no __ne__)"],
+    ),
     'C06': dict(
         level='proof',
         functions=_DATA_FUNCS,
@@ -45,6 +60,24 @@ PROPERTIES = {
 }
 
 MANIFEST_TEXT = {
+    'C06': dict(
+        text='Proof for all inputs, offsets, sizes, marker strings and search windows: each of the five real Data unpack bodies takes exactly the declared '
+             'number of bytes (constant / field / callable or compiled expression) or stops at the first occurrence of the marker inside the window '
+             '(bytes marker: least match position, proved with the slice-shift lemma; regex marker: the match re.search returns), value and cursor as '
+             'declared; short read, negative size, missing delimiter raise; Data.pack re-emits value + excluded literal delimiter.',
+        note='bytes.find and re.search are assumed builtin contracts (find cross-checked against CPython, bounded); regex patterns are opaque; a bytes marker is non-empty; offset >= 0. '
+             'Expressions given as sizes reach Data as compiled callables (C09).'),
+    'C12': dict(
+        text='Proof for an arbitrary field table (abstract field contract: any entry may raise anything): Packet.unpack_impl / pack_impl / unpack / pack '
+             'let only PacketError escape (ValueError for non-bytes input), with the right phase flag, an entry naming the failing field, the class and the '
+             'offset where the field begins, one appended entry per enclosing packet; silent=True returns None on every failure; PacketError.__str__ has no exceptional path.',
+        note='The field table (get_fields) and its well-formedness are assumed (metaclass pipeline not under contract). Generated pack_impl/unpack_impl are C03. '
+             'Known findings K12a (sync hooks outside the try block) and K12b (pack-phase offset of a field that moved the cursor) are carved out; residual obligations are proved.'),
+    'C20': dict(
+        text='Proof for an arbitrary field table and arbitrary slot contents: Packet.__eq__ returns True exactly when other is an instance of the class and every '
+             'table entry compares equal (entries without a value count as absent), and neither __eq__ nor __repr__ has an exceptional path.',
+        note='Python value comparison of two field values is an uninterpreted total relation (reflexive on identical values, structural on primitives); '
+             '__ne__ is the default negation. The defect K20 (AttributeError for positioned/aligned/Em fields) was repaired in /repo (fix: 747be9b).'),
     'C05': dict(
         text='Proof for all widths n >= 1, both signedness settings, all endianness spellings and the class default, all byte strings and all '
              'values: Int._compile selects byte order, struct code and code path as the statement demands; each of the four real pack/unpack '
